@@ -36,7 +36,7 @@ LEVEL_TEXT = (
 LEVEL_NOTE = "Trusted: numpy float64 arithmetic, the C07 reference model (vmon/ref.py); edge points within the stated margin are either-way."
 TECHNIQUE = "runtime postcondition monitor on block_split (all aliases rebound) with an independent floor-arithmetic reference labelling; seeded hostile point clouds incl. exact edge/corner/outside points"
 FLOORS = {
-    "quick": {"eval:block_split": 1600, "eval:label": 120000, "distinct_nontrivial": 1200, "points:edge": 15000, "points:outside": 15000, "eval:layout_pair": 200, "class:dtype_int_east_float_north": 30, "class:dtype_float32_both": 30, "class:history_calls": 160},
+    "quick": {"eval:block_split": 1600, "eval:label": 120000, "distinct_nontrivial": 1200, "points:edge": 15000, "points:outside": 15000, "eval:layout_pair": 200, "class:dtype_int_east_float_north": 30, "class:dtype_float32_both": 30, "class:history_calls": 160, "class:nonfinite_ignored_coordinate": 250},
     "thorough": {"eval:block_split": 25000, "eval:label": 2000000, "distinct_nontrivial": 20000, "points:edge": 200000, "points:outside": 200000},
 }
 JOBS = {"quick": 1, "thorough": 16}
@@ -221,6 +221,17 @@ def _block_args(rng, region, allow_single=True):
     return kwargs
 
 
+def _ignored_extra(run, rng, east):
+    """A third/fourth coordinate (height, time): documented as ignored, so it may hold anything - gaps (NaN), +-inf, huge values."""
+    extra = rng.normal(size=east.shape) * 10 ** rng.uniform(-3, 6)
+    if rng.random() < 0.65:
+        bad = rng.random(east.shape) < rng.choice([0.1, 0.5, 1.0])
+        bad.flat[int(np.argmin(east))] = True  # a point on the border of the cloud (matters when the region is inferred)
+        extra[bad] = rng.choice([np.nan, np.inf, -np.inf], size=int(bad.sum()))
+        run.count("class:nonfinite_ignored_coordinate")
+    return extra
+
+
 def run_case(run, tap, stream, index, rng):
     if stream == "ambient":
         from .. import core as _core
@@ -250,8 +261,10 @@ def run_case(run, tap, stream, index, rng):
                 if given:
                     kwargs["region"] = region
                 coords = (east, north)
-                if rng.random() < 0.2:
-                    coords = (east, north, rng.normal(size=east.shape))
+                if rng.random() < 0.4:
+                    coords = (east, north, _ignored_extra(run, rng, east))
+                    if rng.random() < 0.3:
+                        coords = coords + (_ignored_extra(run, rng, east),)
                 vd.block_split(coords, **kwargs)
             run.sample("random", {"n_points": npts, "kwargs": kwargs})
         elif stream == "edges":
@@ -285,7 +298,7 @@ def run_case(run, tap, stream, index, rng):
                 north = rng.uniform(s - (n - s), n + (n - s), k)
                 kwargs = _block_args(rng, region)
                 kwargs["region"] = region
-                vd.block_split((east, north), **kwargs)
+                vd.block_split((east, north) if rng.random() < 0.7 else (east, north, _ignored_extra(run, rng, east)), **kwargs)
             run.sample("outside", {"region": region, "kwargs": kwargs, "n_points": k})
         elif stream == "layouts":
             npts = int(rng.choice([12, 24, 60, 120]))
